@@ -61,8 +61,7 @@ def structure(text):
         if e[0] in ('start', 'startend'):
             out.append((e[0], e[1], tuple(k for k, v in e[2])))
         elif e[0] == 'text':
-            if not out or out[-1] != ('text',):
-                out.append(('text',))
+            continue            # text content is not structure
         elif e[0] == 'comment':
             out.append(('comment',))
         else:
